@@ -124,6 +124,22 @@ pub fn c04(tier: &str, flavor: Flavor) -> Spec {
             jobs.push(job(single(&cfg, flavor, settled(&ops)), &[0], "c04"));
         }
     }
+    // a validator that refuses overwrites: a refused write changes neither the value nor the deadline
+    for validator in [ValidatorMode::Never, ValidatorMode::Newer] {
+        let vcfg = Cfg { validator, cleanup_ms: 1000, phase_ms: 0, buffer_size: 8, max_cost: 100, ..Cfg::default() };
+        for s in &seqs {
+            if s.iter().filter(|o| matches!(o, Op::Ins { .. } | Op::Pres { .. })).count() < 2 {
+                continue;
+            }
+            let mut ops = s.clone();
+            ops.push(Op::Adv { ms: 1000 });
+            ops.push(Op::Adv { ms: 1000 });
+            for &k in keys {
+                ops.push(Op::Get { k });
+            }
+            jobs.push(job(single(&vcfg, flavor, settled(&ops)), &[0], "c04-validator"));
+        }
+    }
     // the same histories with entries whose charge is exactly zero (cost 0, a Coster valuing
     // everything at 0, internal cost ignored): "any key set whose total cost fits" includes them
     {
@@ -165,7 +181,42 @@ pub fn c04(tier: &str, flavor: Flavor) -> Spec {
 fn o_c03(p: &Program, t: &Trace) -> Vec<Finding> {
     let mut v = o_map(p, t);
     v.extend(o_no_ttl_stays(p, t));
+    v.extend(o_hard_deadline(p, t));
     v
+}
+
+/// For every program, settled or not: a value inserted with TTL d is never returned by a lookup
+/// (nor reported by get_ttl) that begins d or more after the moment insert was CALLED, however
+/// long the item sat in the insert buffer; and while it is served, the remaining time reported is
+/// at most d minus its age.
+pub fn o_hard_deadline(p: &Program, t: &Trace) -> Vec<Finding> {
+    let mut out = Vec::new();
+    let _ = p;
+    for w in t.recs.iter() {
+        let (v, ttl_ms) = match (w.op, w.wrote) {
+            (Op::Ins { ttl_ms, .. }, Some(v)) if ttl_ms > 0 => (v, ttl_ms),
+            _ => continue,
+        };
+        let d = ttl_ms as u128 * 1_000_000;
+        for l in t.recs.iter().filter(|l| l.call > w.call) {
+            if let (Op::Get { .. } | Op::Mut { .. }, Res::Val(Some((x, rem)))) = (&l.op, &l.res) {
+                if *x != v {
+                    continue;
+                }
+                if l.call_ns >= w.call_ns + d {
+                    out.push(("served-after-ttl".to_string(), format!("{} returned {:?} at age {} ms although it was inserted with a TTL of {} ms", l.op.short(), v, (l.call_ns - w.call_ns) / 1_000_000, ttl_ms)));
+                    return out;
+                }
+                if let Some(rem) = rem {
+                    if *rem != u128::MAX && *rem > w.call_ns + d - l.call_ns {
+                        out.push(("ttl-longer-than-given".to_string(), format!("{} reports {} ns remaining for {:?} at age {} ms, more than TTL minus age ({} ns)", l.op.short(), rem, v, (l.call_ns - w.call_ns) / 1_000_000, w.call_ns + d - l.call_ns)));
+                        return out;
+                    }
+                }
+            }
+        }
+    }
+    out
 }
 
 /// Unsettled single-client histories with ample capacity (the tick-race family): a key that is
@@ -321,6 +372,16 @@ pub fn c03(tier: &str, flavor: Flavor) -> Spec {
         }
     }
     jobs.extend(tick_race_jobs(flavor, quick, "c03-tick-race"));
+    // time passing between the insert call and its application by the processor: the deadline
+    // counts from the call
+    for ttl in [500u64, 1000, 1500] {
+        for lag in [300u64, 600, 1200] {
+            for cfg in [Cfg::default(), Cfg { cleanup_ms: 3_600_000, ..Cfg::default() }] {
+                let ops = vec![ins(1, 1, ttl), ins(2, 1, 0), Op::Adv { ms: lag }, Op::Settle, Op::Get { k: 1 }, Op::Ttl { k: 1 }, Op::Adv { ms: 250 }, Op::Get { k: 1 }, Op::Mut { k: 1 }, Op::Adv { ms: 500 }, Op::Get { k: 1 }, Op::Get { k: 2 }];
+                jobs.push(job(single(&cfg, flavor, ops), &[1], "c03-buffered-insert"));
+            }
+        }
+    }
     Spec {
         id: "C03",
         jobs,
@@ -419,6 +480,21 @@ pub fn c05(tier: &str, flavor: Flavor) -> Spec {
         }
     }
     jobs.extend(tick_race_jobs(flavor, quick, "c05-tick-race"));
+    // a lookup guard (on the expired entry itself or on a neighbour in the same shard) held while
+    // the sweep for that entry is due: the sweep waits for the guard, the entry is reclaimed
+    for held in [1u64, 257] {
+        for iv in [500u64, 2000] {
+            let cfg = Cfg { max_cost: 100, cleanup_ms: iv, ..Cfg::default() };
+            let mut ops = vec![Op::GetHold { k: held, ms: 2500 }, Op::Settle];
+            for _ in 0..4 {
+                ops.push(Op::Adv { ms: 1000 });
+                ops.push(Op::Settle);
+            }
+            let mut p = single(&cfg, flavor, ops);
+            p.setup = vec![ins(1, 1, 1000), ins(257, 1, 0)];
+            jobs.push(job(p, &[1], "c05-guard-held"));
+        }
+    }
     // two keys filed into one fresh expiry bucket at the same time: the processor applying a new
     // TTL insert while the client re-files a resident key (in place) with a TTL of the same second
     {
@@ -652,7 +728,7 @@ fn o_c16(p: &Program, t: &Trace) -> Vec<Finding> {
 
 pub fn c16(tier: &str, flavor: Flavor) -> Spec {
     let quick = tier == "quick";
-    let costs: &[i64] = &[0, 1, 5, 1000];
+    let costs: &[i64] = &[0, 1, 5, 1000, -5];
     let mut alpha = Vec::new();
     for &c in costs {
         alpha.push(ins(1, c, 0));
@@ -862,6 +938,18 @@ pub fn c01(tier: &str, flavor: Flavor) -> Spec {
     jobs.extend(popular_jobs(flavor, false, quick, "c01-popular"));
     // charges released / kept by the expiry sweep while the client refreshes the same keys
     jobs.extend(tick_race_jobs(flavor, quick, "c01-tick-race"));
+    // newcomers charged exactly zero (cost 0, Coster 0, internal cost ignored) meeting a cache that
+    // an update or a lowered max_cost left over budget: the admission re-establishes the bound
+    {
+        let zcfg = Cfg { coster_base: 0, coster_mod: 0, ignore_internal_cost: true, max_cost: 6, ..Cfg::default() };
+        let za = [ins(1, 2, 0), ins(2, 2, 0), ins(1, 8, 0), Op::MaxCost { m: 3 }, ins(3, 0, 0), ins(4, 0, 0), ins(5, 1, 0)];
+        for s in sequences(&za, if quick { 4 } else { 5 }) {
+            if !s.iter().any(|o| matches!(o, Op::Ins { c: 0, .. })) {
+                continue;
+            }
+            jobs.push(job(single(&zcfg, flavor, settled(&s)), &[0], "c01-zero-charge"));
+        }
+    }
     // cost 0 = "ask the Coster", internal overhead charged on top: new inserts and in-place
     // updates (insert, insert_if_present) on a cache in which exactly two such entries fit
     {
@@ -921,7 +1009,8 @@ pub fn c06(tier: &str, flavor: Flavor) -> Spec {
         jobs.push(job(conc(&cfg, flavor, &setup, threads), if quick { &[2] } else { &[3] }, "c06-named"));
     }
     // unsettled single-client histories (operation-granularity interleavings with buffered work)
-    let salpha = [ins(1, 1, 0), ins(2, 1, 0), ins(3, 1, 0), ins(1, 1, 1000), Op::Rem { k: 1 }, Op::Rem { k: 3 }, Op::Clear, Op::Adv { ms: 1500 }, Op::Settle];
+    // (I(1,1000): an update whose new cost exceeds max_cost leaves the entry resident and charged)
+    let salpha = [ins(1, 1, 0), ins(2, 1, 0), ins(3, 1, 0), ins(1, 1, 1000), ins(1, 1000, 0), Op::Rem { k: 1 }, Op::Rem { k: 3 }, Op::Clear, Op::Adv { ms: 1500 }, Op::Settle];
     for s in sequences(&salpha, if quick { 4 } else { 5 }) {
         jobs.push(job(single(&cfg, flavor, s), &[1], "c06-seq"));
     }
@@ -982,6 +1071,19 @@ pub fn c08(tier: &str, flavor: Flavor) -> Spec {
     }
     for s in sequences(&alpha, if quick { 4 } else { 5 }) {
         jobs.push(job(single(&cfg, flavor, s), &[1], "c08-seq"));
+    }
+    // clear() with inserts still buffered: the buffered ones are handed back, only residents are
+    // dropped silently
+    {
+        let xa = [ins(1, 1, 0), ins(2, 1, 0), ins(3, 1, 0), Op::Clear, Op::Settle];
+        for s in sequences(&xa, 4) {
+            if !s.contains(&Op::Clear) {
+                continue;
+            }
+            let mut ops = s.clone();
+            ops.push(Op::Settle);
+            jobs.push(job(single(&cfg, flavor, ops), &[1], "c08-clear"));
+        }
     }
     let calpha = [ins(1, 1, 0), ins(3, 1, 0), Op::Rem { k: 1 }, Op::Pres { k: 2, c: 1 }, Op::Get { k: 1 }];
     let pre: Vec<Vec<Op>> = vec![vec![ins(1, 1, 0), ins(2, 1, 0)], vec![ins(1, 1, 1000)], vec![]];
@@ -1279,6 +1381,21 @@ pub fn c10(tier: &str, flavor: Flavor) -> Spec {
             }
         }
     }
+    // three writes to one key before the barrier (a second insert of a key whose first insert is
+    // still buffered, then its removal), also under a validator that refuses the overwrite (the
+    // refused value travels the buffer as a new item): after Ok the removed key is gone
+    for validator in [ValidatorMode::Always, ValidatorMode::Never] {
+        let vcfg = Cfg { validator, ..Cfg::default() };
+        let a3 = [ins(1, 1, 0), Op::Rem { k: 1 }, Op::Settle];
+        for h in sequences(&a3, 3).into_iter().chain(sequences(&a3, 4)) {
+            if h.iter().filter(|o| matches!(o, Op::Ins { .. })).count() < 2 || !h.contains(&Op::Rem { k: 1 }) {
+                continue;
+            }
+            let mut a = h.clone();
+            a.extend([Op::Wait, Op::Get { k: 1 }, Op::Get { k: 2 }, Op::Snap]);
+            jobs.push(job(conc(&vcfg, flavor, &[], vec![a]), &[2], "c10-same-key"));
+        }
+    }
     // waits with nothing pending, racing close/clear directly
     for threads in [
         vec![vec![Op::Wait], vec![Op::Close]],
@@ -1359,10 +1476,12 @@ fn o_c11(p: &Program, t: &Trace) -> Vec<Finding> {
     v.extend(o_post_map(p, t));
     v.extend(o_lookup(p, t));
     v.extend(o_agree(p, t));
-    if is_settled(p) {
+    // (the exact-map and metrics oracles presuppose charges that fit the budget and do not saturate)
+    let huge = p.setup.iter().chain(p.threads.iter().flatten()).any(|o| matches!(o, Op::Ins { c, .. } | Op::Pres { c, .. } if *c > 1_000_000));
+    if is_settled(p) && !huge {
         v.extend(o_map(p, t));
     }
-    if p.cfg.metrics {
+    if p.cfg.metrics && !huge {
         v.extend(o_metrics(p, t));
     }
     v
@@ -1432,6 +1551,18 @@ pub fn c11(tier: &str, flavor: Flavor) -> Spec {
             let mut p = conc(&cfg, flavor, &[ins(1, 1, 0), ins(2, 1, 0)], vec![a.clone(), b.clone()]);
             p.post = vec![Op::Settle, Op::Rem { k: 1 }, Op::Rem { k: 2 }, Op::Settle, ins(1, 1, 0), Op::Settle, ins(2, 1, 0), Op::Settle, Op::Adv { ms: 1500 }, Op::Settle, Op::Adv { ms: 1500 }, Op::Settle, Op::Get { k: 1 }, Op::Get { k: 2 }];
             jobs.push(job(p, &[2], "c11-conc-ttl-update"));
+        }
+    }
+    // charges at the edge of the i64 range (the total saturates) before the clear: afterwards the
+    // charged total is zero like on a fresh cache
+    {
+        let bcfg = Cfg { max_cost: 10, metrics: true, ..Cfg::default() };
+        for big in [i64::MAX, i64::MAX - 56, 5_000_000_000_000_000_000] {
+            for pre in [vec![ins(1, 4, 0), ins(2, 4, 0), ins(1, big, 0)], vec![ins(1, 4, 0), ins(2, 4, 0), ins(1, big, 0), ins(2, big, 0)], vec![ins(1, 4, 0), Op::Pres { k: 1, c: big }, ins(2, 1, 0)]] {
+                let mut ops = pre.clone();
+                ops.extend([Op::Clear, ins(3, 1, 0), ins(4, 1, 0), Op::Get { k: 3 }]);
+                jobs.push(job(single(&bcfg, flavor, settled(&ops)), &[0], "c11-boundary-costs"));
+            }
         }
     }
     // every metrics stripe restarts from zero
@@ -1711,6 +1842,21 @@ pub fn c07_cache(tier: &str, flavor: Flavor) -> Spec {
 }
 
 // ------------------------------------------------------------------------------------------------
+// C19: what a closed cache still shows (len, get_ttl, metrics, entries) is the same on both flavours
+
+pub fn c19_close_corpus(_tier: &str, flavor: Flavor) -> Spec {
+    let cfg = Cfg { metrics: true, buffer_items: 1, ..Cfg::default() };
+    let pre = [ins(1, 1, 5000), ins(2, 1, 0), Op::Get { k: 1 }, Op::Get { k: 9 }, Op::Rem { k: 2 }, Op::Adv { ms: 1000 }];
+    let mut jobs = Vec::new();
+    for s in sequences(&pre, 3) {
+        let mut ops = s.clone();
+        ops.extend([Op::Close, Op::Ttl { k: 1 }, Op::Ttl { k: 2 }, Op::Get { k: 1 }, Op::Close, Op::Adv { ms: 3000 }]);
+        jobs.push(job(single(&cfg, flavor, settled(&ops)), &[0], "c19-closed-cache"));
+    }
+    Spec { id: "C19", jobs, oracle: |_, _| vec![], interesting: |_, _| true, rule: "settled histories of depth 3 over {I(1,5s), I(2), G(1), G(9), R(2), A(1s)} followed by close, get_ttl, get, close, idle time".into(), assumptions: all_std() }
+}
+
+// ------------------------------------------------------------------------------------------------
 // C18 (cache part)
 
 fn o_c18(p: &Program, t: &Trace) -> Vec<Finding> {
@@ -1976,6 +2122,15 @@ pub fn c20(tier: &str, flavor: Flavor) -> Spec {
                     }
                 }
             }
+        }
+    }
+    // residents charged exactly zero among the eviction candidates (cost 0, Coster 0, internal cost
+    // ignored): every admission still terminates
+    for max_cost in [1i64, 10] {
+        for buffer_items in [0usize, 1] {
+            let cfg = Cfg { max_cost, buffer_items, coster_base: 0, coster_mod: 0, ignore_internal_cost: true, ..Cfg::default() };
+            let wl = vec![ins(1, 0, 0), ins(2, max_cost, 0), Op::Settle, Op::Get { k: 1 }, Op::Get { k: 2 }, Op::Get { k: 2 }, Op::Get { k: 3 }, Op::Get { k: 3 }, Op::Get { k: 3 }, Op::Settle, ins(3, max_cost, 0), Op::Settle, ins(4, 0, 0), ins(5, max_cost, 0), Op::Settle, Op::Wait, ins(7, 1, 0), Op::Settle];
+            jobs.push(job(single(&cfg, flavor, wl), &[0], "c20-zero-charge-residents"));
         }
     }
     // "any positive cleanup interval": intervals below one millisecond down to 1 ns
